@@ -26,6 +26,42 @@ func runC01(r *fw.Run, p *fw.Program) {
 	c05BitioxAs(r, p, "C01.bitiox")
 }
 
+
+// c01Params: canonical parameter names (receiver first) the rule texts below are written in;
+// actual names in /repo are aliased to these by position, so renames do not matter.
+var c01Params = map[string][]string{
+	"(*pkg/bitio.SectionReader).SeekBits":             {"r", "bitOff", "whence"},
+	"(*pkg/bitio.MultiReader).SeekBits":               {"m", "bitOff", "whence"},
+	"(*internal/bitiox.ZeroReadAtSeeker).SeekBits":    {"z", "bitOffset", "whence"},
+	"(*pkg/bitio.IOBitReadSeeker).SeekBits":           {"r", "bitOff", "whence"},
+	"(*pkg/bitio.IOReadSeeker).Seek":                  {"r", "offset", "whence"},
+	"(*pkg/bitio.SectionReader).ReadBitsAt":           {"r", "p", "nBits", "bitOff"},
+	"(*pkg/bitio.SectionReader).ReadBits":             {"r", "p", "nBits"},
+	"(*pkg/bitio.MultiReader).ReadBits":               {"m", "p", "nBits"},
+	"(*pkg/bitio.IOBitReadSeeker).ReadBits":           {"r", "p", "nBits"},
+	"(*pkg/bitio.LimitReader).ReadBits":               {"r", "p", "nBits"},
+	"(*internal/bitiox.ZeroReadAtSeeker).ReadBitsAt":  {"z", "p", "nBits", "bitOff"},
+	"(*pkg/bitio.MultiReader).ReadBitsAt":             {"m", "p", "nBits", "bitOff"},
+	"(*pkg/bitio.IOBitReadSeeker).ReadBitsAt":         {"r", "p", "nBits", "bitOffset"},
+	"(*internal/aheadreadseeker.Reader).Seek":         {"r", "offset", "whence"},
+	"(*internal/aheadreadseeker.Reader).Read":         {"r", "p"},
+}
+
+// c01Fn resolves an anchored function and aliases its parameters to the canonical names.
+func c01Fn(ru *fw.Rule, p *fw.Program, name string) *ssa.Function {
+	fn := getFn(ru, p, name)
+	if fn == nil {
+		return nil
+	}
+	if names, ok := c01Params[name]; ok {
+		if !fw.AliasParams(fn, names...) {
+			ru.Undecided("anchor:"+name+":signature", p.Rel(fn.Pos()), "parameter list changed; the rule's parameter roles must be updated")
+			return nil
+		}
+	}
+	return fn
+}
+
 // ---------------------------------------------------------------------------
 // C01.seek: io.Seeker contract of every computing SeekBits / Seek
 
@@ -46,7 +82,7 @@ var seekSpecs = []seekSpec{
 func c01Seek(r *fw.Run, p *fw.Program) {
 	ru := r.Rule("C01.seek", "every computing seeker obeys the io.Seeker contract per whence: start => off(+base), current => cursor+off, end => end+off; the stored cursor is that value and the returned position is cursor(-base)", 18)
 	for _, sp := range seekSpecs {
-		fn := getFn(ru, p, sp.fn)
+		fn := c01Fn(ru, p, sp.fn)
 		if fn == nil {
 			continue
 		}
@@ -126,7 +162,7 @@ func c01Seek(r *fw.Run, p *fw.Program) {
 	}
 
 	// IOBitReadSeeker.SeekBits: SeekCurrent must be resolved against bitPos, not forwarded to the byte reader
-	if fn := getFn(ru, p, "(*pkg/bitio.IOBitReadSeeker).SeekBits"); fn != nil {
+	if fn := c01Fn(ru, p, "(*pkg/bitio.IOBitReadSeeker).SeekBits"); fn != nil {
 		env := fw.NewPolyEnv(fn)
 		calls := methodCalls(fn, "Seek")
 		if len(calls) != 1 {
@@ -182,7 +218,7 @@ func c01Seek(r *fw.Run, p *fw.Program) {
 	}
 
 	// IOReadSeeker.Seek (byte seeker over a bit seeker)
-	if fn := getFn(ru, p, "(*pkg/bitio.IOReadSeeker).Seek"); fn != nil {
+	if fn := c01Fn(ru, p, "(*pkg/bitio.IOReadSeeker).Seek"); fn != nil {
 		env := fw.NewPolyEnv(fn)
 		calls := methodCalls(fn, "SeekBits")
 		if len(calls) != 1 {
@@ -272,7 +308,7 @@ func c01Clamp(r *fw.Run, p *fw.Program) {
 	ru := r.Rule("C01.clamp", "limiting readers (Section, Limit, Zero, Multi) bound the count/offset handed to the wrapped reader by the remaining window and report EOF only outside it", 14)
 
 	// SectionReader.ReadBitsAt
-	if fn := getFn(ru, p, "(*pkg/bitio.SectionReader).ReadBitsAt"); fn != nil {
+	if fn := c01Fn(ru, p, "(*pkg/bitio.SectionReader).ReadBitsAt"); fn != nil {
 		env := fw.NewPolyEnv(fn)
 		calls := methodCalls(fn, "ReadBitsAt")
 		if len(calls) == 0 {
@@ -296,7 +332,7 @@ func c01Clamp(r *fw.Run, p *fw.Program) {
 		{"(*pkg/bitio.MultiReader).ReadBits", "m.pos", "m.pos"},
 		{"(*pkg/bitio.IOBitReadSeeker).ReadBits", "r.bitPos", "r.bitPos"},
 	} {
-		fn := getFn(ru, p, x.fn)
+		fn := c01Fn(ru, p, x.fn)
 		if fn == nil {
 			continue
 		}
@@ -320,7 +356,7 @@ func c01Clamp(r *fw.Run, p *fw.Program) {
 		ru.Check(got.Equal(want), x.fn+":advance", p.Rel(sts[0].Pos()), "cursor += bits returned", "cursor becomes "+got.String()+", expected old cursor + bits actually returned ("+want.String()+")")
 	}
 	// LimitReader.ReadBits
-	if fn := getFn(ru, p, "(*pkg/bitio.LimitReader).ReadBits"); fn != nil {
+	if fn := c01Fn(ru, p, "(*pkg/bitio.LimitReader).ReadBits"); fn != nil {
 		env := fw.NewPolyEnv(fn)
 		calls := methodCalls(fn, "ReadBits")
 		if len(calls) != 1 {
@@ -362,7 +398,7 @@ func c01Clamp(r *fw.Run, p *fw.Program) {
 		}
 	}
 	// ZeroReadAtSeeker.ReadBitsAt
-	if fn := getFn(ru, p, "(*internal/bitiox.ZeroReadAtSeeker).ReadBitsAt"); fn != nil {
+	if fn := c01Fn(ru, p, "(*internal/bitiox.ZeroReadAtSeeker).ReadBitsAt"); fn != nil {
 		env := fw.NewPolyEnv(fn)
 		env.Pure["BitsByteCount"] = true
 		env.Pure["bitio.BitsByteCount"] = true
@@ -416,7 +452,7 @@ func c01Clamp(r *fw.Run, p *fw.Program) {
 		}
 	}
 	// MultiReader.ReadBitsAt
-	if fn := getFn(ru, p, "(*pkg/bitio.MultiReader).ReadBitsAt"); fn != nil {
+	if fn := c01Fn(ru, p, "(*pkg/bitio.MultiReader).ReadBitsAt"); fn != nil {
 		env := fw.NewPolyEnv(fn)
 		calls := methodCalls(fn, "ReadBitsAt")
 		if len(calls) != 1 {
@@ -524,7 +560,7 @@ func fromRangeOver(v ssa.Value, fld string) bool {
 
 func c01EOF(r *fw.Run, p *fw.Program) {
 	ru := r.Rule("C01.eof", "IOBitReadSeeker.ReadBitsAt fetches bytes from bitOffset/8, and after a short read reports only 8*bytesRead - (bitOffset%8) bits (never bits past the end)", 5)
-	fn := getFn(ru, p, "(*pkg/bitio.IOBitReadSeeker).ReadBitsAt")
+	fn := c01Fn(ru, p, "(*pkg/bitio.IOBitReadSeeker).ReadBitsAt")
 	if fn == nil {
 		return
 	}
@@ -563,7 +599,16 @@ func c01EOF(r *fw.Run, p *fw.Program) {
 	found := false
 	fw.EachInstr(fn, func(ins ssa.Instruction) {
 		phi, ok := ins.(*ssa.Phi)
-		if !ok || phi.Comment != "nBits" {
+		if !ok || !isIntT(phi.Type()) {
+			return
+		}
+		hasParam := false
+		for _, e := range phi.Edges {
+			if env.Of(e).Equal(fw.PAtom("nBits")) {
+				hasParam = true
+			}
+		}
+		if !hasParam {
 			return
 		}
 		for _, e := range phi.Edges {
@@ -583,7 +628,7 @@ func c01EOF(r *fw.Run, p *fw.Program) {
 	eof := false
 	fw.EachInstr(fn, func(ins ssa.Instruction) {
 		phi, ok := ins.(*ssa.Phi)
-		if !ok || phi.Comment != "err" {
+		if !ok || types.TypeString(phi.Type(), nil) != "error" {
 			return
 		}
 		for _, e := range phi.Edges {
@@ -614,7 +659,7 @@ func c01EOF(r *fw.Run, p *fw.Program) {
 
 func c01Ahead(r *fw.Run, p *fw.Program) {
 	ru := r.Rule("C01.ahead", "aheadreadseeker: whenever the underlying reader was re-positioned, a successful return leaves the cache invalidated and offset at the sought position; after a refill cacheOffset/cacheUsed describe the block just read; hits are served only from inside the cached window", 9)
-	if fn := getFn(ru, p, "(*internal/aheadreadseeker.Reader).Seek"); fn != nil {
+	if fn := c01Fn(ru, p, "(*internal/aheadreadseeker.Reader).Seek"); fn != nil {
 		env := fw.NewPolyEnv(fn)
 		seeks := methodCalls(fn, "Seek")
 		if len(seeks) == 0 {
@@ -679,7 +724,7 @@ func c01Ahead(r *fw.Run, p *fw.Program) {
 			}
 		}
 	}
-	if fn := getFn(ru, p, "(*internal/aheadreadseeker.Reader).Read"); fn != nil {
+	if fn := c01Fn(ru, p, "(*internal/aheadreadseeker.Reader).Read"); fn != nil {
 		env := fw.NewPolyEnv(fn)
 		env.Pure["aheadreadseeker.min64"] = true
 		rfs := methodCalls(fn, "ReadFull")
